@@ -12,6 +12,7 @@ import (
 	"verifharness/internal/fw"
 	"verifharness/internal/gen"
 	"verifharness/internal/model"
+	"verifharness/internal/run"
 )
 
 const iupac15 = "ACGTRYSWKMBDHVN"
@@ -20,7 +21,7 @@ func init() {
 	fw.Register(&fw.Property{
 		ID:    "C17",
 		Level: "exploration",
-		Rule: "the whole finite domain executed against the real functions: all 15^3 = 3375 IUPAC codons through MakeCodonDict, Translate(strict and non-strict); the 64 unambiguous codons against an independently encoded NCBI table-1 string; all 32 accepted nucleotide characters through the text and encoded complement, encode/decode tables and the record-level Complement/ReverseComplement methods; plus random sequences for the record-level involutions; " +
+		Rule: "the whole finite domain executed against the real functions: all 15^3 = 3375 IUPAC codons through MakeCodonDict, Translate(strict and non-strict); the 64 unambiguous codons against an independently encoded NCBI table-1 string; all 32 accepted nucleotide characters through the text and encoded complement, encode/decode tables and the record-level Complement/ReverseComplement methods; plus random sequences for the record-level involutions; every codon whose product is not a stop is also placed as a reference codon of a one-CDS GFF-annotated genome and run through variants (resolvable: the aa record carries that product; unresolvable: refused in strict mode, or answered with every differing position listed); " +
 			"distinct non-trivial = distinct codons and characters checked (every one is a distinct case)",
 		Assumptions: []string{"the 64-letter NCBI translation table string and the IUPAC set table in the harness are correct"},
 		Exhaustive:  true,
@@ -34,6 +35,69 @@ func init() {
 		},
 		Run: runC17,
 	})
+}
+
+// c17VariantsOnReferenceCodon observes the codon through `variants` with a GFF annotation, whose
+// reference proteins are translated in strict mode: the codon is the second codon of the only
+// CDS of a 20-base genome. A codon with one product must give the aa record with that product as
+// the reference residue; a codon without one makes the reference protein undefined, which the
+// command may refuse (strict mode) - but if it answers, the answer still has to list every
+// position at which query and reference differ.
+func c17VariantsOnReferenceCodon(res *fw.Result, codon string, want byte) {
+	ref := "CA" + "ATG" + codon + "GGA" + "TAA" + "CATCAT"
+	qc, qaa := "GGG", byte('G')
+	if want == 'G' {
+		qc, qaa = "AAA", 'K'
+	}
+	qry := "TA" + "ATG" + qc + "GGA" + "TAA" + "CAGCAT"
+	gff := "##gff-version 3\n##sequence-region r 1 20\nr\tx\tgene\t3\t14\t.\t+\t.\tID=gene-orf;Name=orf\nr\tx\tCDS\t3\t14\t.\t+\t0\tID=cds-orf;Parent=gene-orf;Name=orf\n"
+	msa := ">r\n" + ref + "\n>q\n" + qry + "\n"
+	out, err := run.Variants(msa, "r", gff, "gff", -1, -1, false, 0, true, 1)
+	res.Evals++
+	files := map[string]string{"msa.fasta": msa, "annotation.gff": gff, "observed.csv": out}
+	argv := []string{"variants", "--msa", "msa.fasta", "-r", "r", "-a", "annotation.gff", "--append-snps"}
+	if err != nil {
+		if want != 'X' {
+			res.Fail("variants-refuses-resolvable-reference-codon", fmt.Sprintf("reference codon %s has the single product %c but variants failed: %v", codon, want, err), files, argv)
+		} else {
+			res.Count("variants_runs_refused_for_an_unresolvable_reference_codon", 1)
+		}
+		return
+	}
+	_, muts, ok := model.ParseVariantsCSV(out)
+	if !ok || len(muts) != 1 {
+		res.Fail("variants-output-format", "variants output for the one-CDS genome could not be parsed: "+clipStr(out, 200), files, argv)
+		return
+	}
+	mentioned := map[int]bool{}
+	var aa *model.Mut
+	for i, m := range muts[0] {
+		switch m.Kind {
+		case "nuc":
+			mentioned[m.Pos] = true
+		case "aa":
+			if m.K == 2 {
+				aa = &muts[0][i]
+			}
+			for _, in := range m.Inner {
+				mentioned[in.Pos] = true
+			}
+		}
+	}
+	for p := 0; p < len(ref); p++ {
+		if model.Disjoint(ref[p], qry[p], false) && !mentioned[p+1] {
+			res.Fail("variants-drops-snp-with-ambiguous-reference-codon", fmt.Sprintf("reference codon %s: the run succeeded but position %d (%c vs %c) is not mentioned in %q", codon, p+1, ref[p], qry[p], clipStr(out, 200)), files, argv)
+			return
+		}
+	}
+	if want == 'X' {
+		res.Count("variants_runs_answered_for_an_unresolvable_reference_codon", 1)
+		return
+	}
+	res.Count("variants_runs_on_resolvable_reference_codons", 1)
+	if aa == nil || aa.Feature != "orf" || aa.R != want || aa.Q != qaa {
+		res.Fail("variants-aa-on-ambiguity-codon", fmt.Sprintf("reference codon %s (product %c), query codon %s (%c): expected aa:orf:%c2%c, observed %q", codon, want, qc, qaa, want, qaa, clipStr(out, 200)), files, argv)
+	}
 }
 
 // c17ConcurrentBurst translates from several goroutines at once. The first case of every
@@ -153,6 +217,9 @@ func runC17(c *fw.Ctx, idx int) fw.Result {
 					}
 				} else if errs != nil || ts != string(want) {
 					res.Fail("translate-strict", fmt.Sprintf("Translate(%s,true) = %q,%v; expected %c", codon, ts, errs, want), nil, nil)
+				}
+				if want != '*' {
+					c17VariantsOnReferenceCodon(&res, codon, want)
 				}
 			}
 		}
